@@ -896,12 +896,188 @@ func c07RaceBlocks(path, repo string) (total, inSerf int, first string) {
 	return
 }
 
+// c07Stalled: the application does not read its event channel, so (once serf's internal
+// event buffer is full as well) an incoming query blocks inside the node (it holds the query registry while waiting to hand the event
+// over) across the deadline of a query the node itself is running. The close of that
+// query and every late reply then queue up behind it. When the application finally reads,
+// whatever order they are released in, a reply that was handed to the node after the
+// deadline must not appear on the result channels. Real time (a bubble cannot advance its
+// clock while a goroutine waits for a mutex); the only timing assumption is that real time
+// passes, no verdict depends on how fast.
+func c07Stalled(rng *rand.Rand) (viol string, exercised bool, err error) {
+	snet := simnet.New(rng.Int63())
+	nd, e := cluster.Start(snet, cluster.Opts{Name: "origin", IP: "10.0.0.1", Profile: "passive", NoDrain: true, EventBuf: 1})
+	if e != nil {
+		return "", false, e
+	}
+	defer nd.Close()
+	{
+		// member events of the setup are read by a temporary consumer (the channel has one slot)
+		stop, done := make(chan struct{}), make(chan struct{})
+		go func() {
+			defer close(done)
+			for {
+				select {
+				case <-nd.Ch:
+				case <-stop:
+					return
+				}
+			}
+		}()
+		for i := 0; i < 3; i++ {
+			nd.NotifyJoin(cluster.FakeNode(fmt.Sprintf("p%d", i), fmt.Sprintf("10.0.0.%d", 10+i), 7946, nil))
+		}
+		for i := 0; i < 20 && len(nd.S.Members()) < 4; i++ {
+			time.Sleep(time.Millisecond)
+		}
+		time.Sleep(2 * time.Millisecond)
+		close(stop)
+		<-done
+		for len(nd.Ch) > 0 {
+			<-nd.Ch
+		}
+	}
+	timeout := time.Duration(30+rng.Intn(40)) * time.Millisecond
+	params := nd.S.DefaultQueryParams()
+	params.RequestAck = true
+	params.Timeout = timeout
+	qr, e := nd.S.Query("stalled", []byte("x"), params)
+	if e != nil {
+		return "", false, e
+	}
+	// the result channels are buffered to the (small) member count and replies are dropped when
+	// they are full: consume from the start
+	var bad []string
+	late := map[string]bool{"p1": true, "p2": true}
+	consumed := make(chan struct{})
+	go func() {
+		defer close(consumed)
+		ack, rsp := qr.AckCh(), qr.ResponseCh()
+		for ack != nil || rsp != nil {
+			select {
+			case a, ok := <-ack:
+				if !ok {
+					ack = nil
+				} else if late[a] {
+					bad = append(bad, "ack from "+a)
+				}
+			case r, ok := <-rsp:
+				if !ok {
+					rsp = nil
+				} else if late[r.From] {
+					bad = append(bad, "response from "+r.From)
+				}
+			}
+		}
+	}()
+	// the node's own query event now fills the one-slot event channel
+	var lt uint64
+	var id uint32
+	for _, m := range nd.DrainBroadcasts() {
+		if len(m) > 0 && m[0] == wire.Query {
+			var q wire.MsgQuery
+			if wire.Decode(m[1:], &q) == nil && q.Name == "stalled" {
+				lt, id = q.LTime, q.ID
+			}
+		}
+	}
+	if lt == 0 {
+		return "", false, fmt.Errorf("query message not found in the broadcast queue")
+	}
+	g := newBGroup()
+	// an incoming query from a peer: blocks handing its event to the application
+	// (serf buffers up to 1024 events between itself and the application, so it takes more than
+	// that many incoming queries before a handler blocks)
+	var incomingDone atomic.Bool
+	g.Go(func() {
+		defer incomingDone.Store(true)
+		for k := uint32(0); k < 1100; k++ {
+			nd.NotifyMsg(wire.Encode(wire.Query, &wire.MsgQuery{LTime: lt + 1, ID: 1000 + k, Addr: []byte{10, 0, 0, 10}, Port: 7946, SourceNode: "p0", Timeout: time.Second, Name: "incoming"}))
+		}
+	})
+	// an early, legitimate reply while the handler may already be stalled
+	early := rng.Intn(2) == 0
+	if early {
+		g.Go(func() {
+			nd.NotifyMsg(wire.Encode(wire.QueryResponse, &wire.MsgQueryResponse{LTime: lt, ID: id, From: "p0", Payload: []byte("early")}))
+		})
+	}
+	for time.Now().Before(qr.Deadline().Add(5 * time.Millisecond)) {
+		time.Sleep(time.Millisecond)
+	}
+	// late replies, handed over after the deadline from goroutines of their own
+	for i := 1; i <= 2; i++ {
+		from := fmt.Sprintf("p%d", i)
+		g.Go(func() {
+			nd.NotifyMsg(wire.Encode(wire.QueryResponse, &wire.MsgQueryResponse{LTime: lt, ID: id, From: from, Flags: 1}))
+		})
+		g.Go(func() {
+			nd.NotifyMsg(wire.Encode(wire.QueryResponse, &wire.MsgQueryResponse{LTime: lt, ID: id, From: from, Payload: []byte("late")}))
+		})
+	}
+	time.Sleep(5 * time.Millisecond)
+	exercised = !incomingDone.Load() // a handler is still blocked, 10 ms after the deadline
+	// the application wakes up
+	stopDrain := make(chan struct{})
+	drained := make(chan struct{})
+	go func() {
+		defer close(drained)
+		for {
+			select {
+			case <-nd.Ch:
+			case <-stopDrain:
+				return
+			}
+		}
+	}()
+	g.Wait()
+	select {
+	case <-consumed:
+	case <-time.After(30 * time.Second):
+		close(stopDrain)
+		<-drained
+		return "", exercised, fmt.Errorf("result channels not closed 30 s after the application resumed (watchdog)")
+	}
+	close(stopDrain)
+	<-drained
+	if len(bad) > 0 {
+		sort.Strings(bad)
+		viol = fmt.Sprintf("query with a %v timeout; replies handed to the node 5 ms or more after its deadline, while an incoming query was blocked on the application's full event channel, were delivered once the application resumed: %s", timeout, strings.Join(bad, ", "))
+	}
+	return
+}
+
 func TestC07(t *testing.T) {
 	if p := os.Getenv("VERIF_C07_CHILD"); p != "" {
 		c07Child(t, p)
 		return
 	}
 	r := evid.Start(t, "C07", "exploration")
+	if os.Getenv("VERIF_PHASE") == "plain" {
+		// pre-phase in a build WITHOUT the race detector: under -race the scheduler lets the
+		// closing timer win every time and the window never opens (measured: 0 of 20 rounds
+		// against 20 of 20 in a plain build, on a tree where the deadline check was removed)
+		r.Cases("stalled", r.N(60, 1500), 4, func(ci int, rng *rand.Rand) {
+			viol, exercised, err := c07Stalled(rng)
+			r.Eval(1)
+			r.Count("stalled_app_rounds", 1)
+			if exercised {
+				r.Count("stalled_app_rounds_with_handler_blocked_across_deadline", 1)
+			}
+			if err != nil {
+				r.Count("stalled_app_setup_errors", 1)
+				if strings.Contains(err.Error(), "watchdog") {
+					r.Inconclusive(err.Error())
+				}
+				return
+			}
+			if viol != "" {
+				r.Violation("reply-after-deadline/stalled-application", ci, viol, viol)
+			}
+		})
+		r.Finish("stalled-application rounds (plain build): an incoming query blocks on the application's full event channel across the deadline of the node's own query; replies handed over after the deadline must not be delivered when the application resumes", 0)
+		return
+	}
 	nBatch := r.N(4, 12)
 	nSeq := r.N(8, 60) // bubbles per child, c07Episodes scenarios each
 	nConc := r.N(8, 40)
